@@ -296,6 +296,19 @@ class ShardAPI:
     def record(self, case, info):
         self.rec.record(case, info)
 
+    def note_harness(self, exc):
+        """A non-Violation exception escaped a check: remember the first one, start the shrink clock."""
+        rec = self.rec
+        if getattr(rec, "harness_trace", None) is None:
+            rec.harness_trace = "".join(traceback.format_exception(type(exc), exc, exc.__traceback__))[-3000:]
+        if rec.first_failure_time is None:
+            rec.first_failure_time = time.time()
+
+    def shrink_expired(self):
+        """True once the shrink-time cap is used up (stateful machines then stop executing steps)."""
+        t = self.rec.first_failure_time
+        return t is not None and time.time() - t > self.shrink_cap
+
     def guarded(self, case):
         """Run one case; implements the shrink-time cap and known findings."""
         rec, facet = self.rec, self.facet
@@ -394,8 +407,8 @@ def run_shard(args):
                 return _shard_result(
                     rec, t0, violation={"case": c, "message": msg, "details": det}
                 )
-            tb = traceback.format_exc()
-            return _shard_result(rec, t0, harness=f"{facet.name}: {type(e).__name__}: {e}\n{tb}")
+            tb = getattr(rec, "harness_trace", None) or traceback.format_exc()
+            return _shard_result(rec, t0, harness=f"{facet.name}: {type(e).__name__}: {str(e)[:300]}\n{tb}")
         return _shard_result(rec, t0)
     except BaseException as e:  # noqa: BLE001
         tb = traceback.format_exc()
